@@ -20,6 +20,13 @@
 //!                                 damage: none | index | pack | dmg | hc | hcdmg | hcpack | hcindex | hcmiss | hcmissp
 //!                                   index   one index file removed         pack    the largest (data) pack removed
 //!                                   hcmiss  hot store lost a snapshot and an index file      hcmissp  hot store lost a tree pack
+//! backup tokens `backup[.<source kind>][.dry].<new|same>` — EVERY source kind x the dry-run flag on and off:
+//!   (none)  `Repository::archive` with the harness' in-memory `ReadSource`
+//!   local   `Repository::backup` (commands/backup.rs `backup()`) of a directory on disk (`LocalSource`)
+//!   cmd     `Repository::backup` of source `-` with `stdin_command` set (`echo` / `printf`: `ChildStdoutSource`); a non-dry
+//!           `local` / `cmd` backup must read back to the directory's files / the command's output
+//!   (`backup -` WITHOUT a command reads the process' standard input, which is this harness' op stream — not drivable
+//!   in-process; in `backup()` it shares the cloned options with the command form: `Model/CommandSteps.lean`.)
 //! observation `ao/aox`: `ok <cmd>=<result>:<kinds>,…`; kinds = sorted set of w.<type> / r.<type> seen by the backend(s)
 //! (`-` = no write and no removal; both stores of a hot/cold pair are merged).  On damaged setups the observation is
 //! coarse: `<cmd>=refused|ran:<kinds without w.snapshot>` (how much a command repairs / whether a read fails depends on
@@ -30,11 +37,11 @@
 //! AppendOnly (and the refused `delete_snapshots` part of `merge --delete`) issued no storage operation; a dry-run
 //! leaves every store byte-identical and its op log empty of applied operations; read-only operations (check, restore,
 //! prune_plan, prepare_restore, the accessor / listing batch `readonly`) issue no write and no removal.
-use crate::repo::{LogOp, MemBackend, MemSource, RepoHandle, SrcEntry, Store, ft_name};
+use crate::repo::{LogOp, MemBackend, MemSource, RepoHandle, SrcEntry, SrcKind, Store, ft_name};
 use crate::util::{Rng, Stats, errkind, guarded};
 use rustic_core::repofile::{FileType, Node, SnapshotFile};
 use rustic_core::{
-    BackupOptions, CheckOptions, ConfigOptions, Credentials, KeyOptions, LocalDestination, LsOptions, OpenStatus, PruneOptions,
+    BackupOptions, CheckOptions, CommandInput, ConfigOptions, Credentials, KeyOptions, LocalDestination, LsOptions, OpenStatus, PathList, PruneOptions,
     RepairIndexOptions, RepairSnapshotsOptions, Repository, RestoreOptions, RewriteOptions, RewriteTreesOptions, RusticResult, StringList,
 };
 use std::collections::BTreeSet;
@@ -71,6 +78,70 @@ fn do_backup_on(repo: Repository<OpenStatus>, src: &MemSource, dry: bool) -> Rus
     let repo = repo.to_indexed_ids()?;
     let opts = BackupOptions::default().dry_run(dry);
     repo.archive(&opts, src, SnapshotFile::default(), &[PathBuf::from(crate::repo::SRC_ROOT)])
+}
+
+/// the name of the single file of a stdin backup (the CLI's default of `--stdin-filename`)
+const STDIN_NAME: &str = "stdin";
+
+/// a harmless command (it does not read its standard input) and what it prints
+fn stdin_command(variant: u32) -> (CommandInput, Vec<u8>) {
+    let text = format!("output of the stdin command, version {variant}: {}", "0123456789 ".repeat((variant % 7) as usize * 40));
+    if variant % 2 == 0 {
+        (CommandInput::from(vec!["echo".to_string(), text.clone()]), format!("{text}\n").into_bytes())
+    } else {
+        (CommandInput::from(vec!["printf".to_string(), "%s".to_string(), text.clone()]), text.into_bytes())
+    }
+}
+
+/// `Repository::backup` (commands/backup.rs `backup()`) from source `-` with `stdin_command` set; returns the snapshot and
+/// the file contents it must read back to
+fn do_backup_cmd(repo: Repository<OpenStatus>, variant: u32, dry: bool) -> RusticResult<(SnapshotFile, Vec<Vec<u8>>)> {
+    let repo = repo.to_indexed_ids()?;
+    let (command, output) = stdin_command(variant);
+    let opts = BackupOptions::default().dry_run(dry).stdin_filename(STDIN_NAME).stdin_command(command);
+    let snap = repo.backup(&opts, &PathList::from_string("-")?, SnapshotFile::default())?;
+    Ok((snap, vec![output]))
+}
+
+/// `Repository::backup` of a directory on disk holding the files of `source(variant)` (`LocalSource`)
+fn do_backup_local(repo: Repository<OpenStatus>, variant: u32, dry: bool) -> RusticResult<(SnapshotFile, Vec<Vec<u8>>)> {
+    use std::os::unix::ffi::OsStringExt;
+    let tmp = tempfile::tempdir().expect("tempdir");
+    let root = tmp.path().join("src");
+    std::fs::create_dir_all(&root).expect("mkdir");
+    let mut contents = Vec::new();
+    for e in &source(variant).entries {
+        let mut p = root.clone();
+        for c in &e.path {
+            p.push(std::ffi::OsString::from_vec(c.clone()));
+        }
+        match &e.kind {
+            SrcKind::Dir => std::fs::create_dir_all(&p).expect("mkdir"),
+            SrcKind::File(c) => {
+                std::fs::write(&p, c).expect("write");
+                contents.push(c.clone());
+            }
+            SrcKind::Symlink(t) => std::os::unix::fs::symlink(std::ffi::OsString::from_vec(t.clone()), &p).expect("symlink"),
+        }
+    }
+    contents.sort();
+    let repo = repo.to_indexed_ids()?;
+    let opts = BackupOptions::default().dry_run(dry);
+    let paths = PathList::from_string(root.to_str().expect("utf-8 temp path"))?.sanitize().expect("sanitize");
+    let snap = repo.backup(&opts, &paths, SnapshotFile::default())?;
+    Ok((snap, contents))
+}
+
+/// a non-dry backup through `Repository::backup` returned `snap`: the snapshot file exists and its files read back to `contents`
+fn backup_reads_back(h: &RepoHandle, snap: &SnapshotFile, contents: &[Vec<u8>]) -> Result<(), String> {
+    if h.be.get(FileType::Snapshot, &snap.id).is_none() {
+        return Err("backup-returned-a-snapshot-that-is-not-stored".into());
+    }
+    let repo = h.open_oc().and_then(|r| r.to_indexed()).map_err(|e| format!("backup-read-back-{}", errkind(&e)))?;
+    let rb = crate::repo::read_back(&repo, snap).map_err(|e| format!("backup-read-back-{}", errkind(&e)))?;
+    let mut got: Vec<Vec<u8>> = rb.into_iter().filter_map(|e| e.content).collect();
+    got.sort();
+    if got != contents { Err("backup-reads-back-differently".into()) } else { Ok(()) }
 }
 
 /// the mutating calls seen by every store of the repository (cold first, then hot)
@@ -167,7 +238,11 @@ fn read_only_batch(repo: Repository<OpenStatus>) -> RusticResult<()> {
                 repo.dump(&node, &mut sink)?;
             }
         }
-        let _ = repo.node_from_path(s.tree, std::path::Path::new("src/common"))?;
+        // only snapshots of the in-memory source (root `/src`) hold that path; a stdin / local-directory snapshot answers "not found"
+        let by_path = repo.node_from_path(s.tree, std::path::Path::new("src/common"));
+        if s.paths.contains(crate::repo::SRC_ROOT) {
+            let _ = by_path?;
+        }
         drop(tree);
     }
     let _ = repo.drop_index();
@@ -209,7 +284,24 @@ fn run_cmd(cx: &mut Ctx, cmd: &str) -> Option<String> {
             } else {
                 cx.last_src
             };
-            res_str(&open().and_then(|repo| do_backup_on(repo, &source(v), dry)))
+            if parts[1..].iter().any(|f| !matches!(*f, "cmd" | "local" | "dry" | "new" | "same")) || (has("cmd") && has("local")) || has("new") == has("same") {
+                return None;
+            }
+            if has("cmd") || has("local") {
+                // the general entry `Repository::backup`, which builds the source (and the options for `archive`) itself
+                let r = open().and_then(|repo| if has("cmd") { do_backup_cmd(repo, v, dry) } else { do_backup_local(repo, v, dry) });
+                if let (Ok((snap, contents)), false) = (&r, dry) {
+                    // contents deduplicated against a lost pack cannot be read (damage `pack`): only a command's output is
+                    // always new to the repository
+                    match backup_reads_back(&h, snap, contents) {
+                        Err(e) if has("cmd") || e == "backup-reads-back-differently" => cx.oracle = Some(e),
+                        _ => {}
+                    }
+                }
+                res_str(&r)
+            } else {
+                res_str(&open().and_then(|repo| do_backup_on(repo, &source(v), dry)))
+            }
         }
         "forget" => {
             let r = open().and_then(|repo| {
@@ -661,6 +753,9 @@ fn exec_dry(damage: &str, cmd: &str, twin: bool) -> String {
     if stores(&cx.h) != before {
         return format!("oracle-fail:dry-run-changed-the-store-{cmd}");
     }
+    if let Some(o) = cx.oracle.take() {
+        return format!("oracle-fail:{o}-{cmd}");
+    }
     let _ = res; // a dry run may fail on a damaged repository; the property is about storage operations only
     if !twin {
         return format!("ok {cmd}={k}");
@@ -674,6 +769,9 @@ fn exec_dry(damage: &str, cmd: &str, twin: bool) -> String {
     cx.n_backup = 0;
     cx.last_src = 2;
     let Some(tres) = run_cmd(&mut cx, &twin_cmd) else { return "bad-op".into() };
+    if let Some(o) = cx.oracle.take() {
+        return format!("oracle-fail:{o}-{twin_cmd}");
+    }
     let tk = kinds(&cx.h);
     // how many packs / index files a backup appends depends on what is already stored
     let tk = if twin_cmd.starts_with("backup") { drop_kinds(&tk, &["w.pack", "w.index"]) } else { tk };
@@ -692,7 +790,10 @@ pub fn exec(toks: &[&str]) -> String {
     })
 }
 
-pub const AO_CMDS: [&str; 54] = [
+pub const AO_CMDS: [&str; 62] = [
+    // backup through `Repository::backup`: from a stdin command and from a directory on disk, dry-run flag on and off
+    "backup.cmd.new", "backup.cmd.same", "backup.cmd.dry.new", "backup.cmd.dry.same", "backup.local.new", "backup.local.same",
+    "backup.local.dry.new", "backup.local.dry.same",
     // prune with every option of `PruneOptions` (instant_delete, early_delete_index, repack_all, fast_repack, repack_uncompressed,
     // repack_cacheable_only, no_resize, max_unused, max_repack, keep_delete, keep_pack; `ignore_snaps`: PRUNE_AO_ONLY)
     "prune.early", "prune.instant.early", "prune.instant.all", "prune.fast", "prune.uncomp", "prune.cacheable", "prune.noresize",
@@ -715,12 +816,18 @@ pub const PRUNE_CMDS: [&str; 14] = [
 ];
 /// expensive (scrypt) or state-resetting tokens: chosen rarely
 pub const RARE_CMDS: [&str; 2] = ["key.add", "reinit"];
-pub const DRY_CMDS: [&str; 8] = [
+pub const DRY_CMDS: [&str; 12] = [
+    "backup.cmd.dry.new", "backup.cmd.dry.same", "backup.local.dry.new", "backup.local.dry.same",
     "backup.dry.new", "backup.dry.same", "repair_index.dry", "repair_index.readall.dry", "repair_snap.delete.dry", "repair_snap.keep.dry",
     "rewrite.forget.dry", "rewtrees.forget.dry",
 ];
 /// every dry-run flag on a repository where the non-dry twin has work to do: (damage, dry command)
-pub const DRY_TWINS: [(&str, &str); 39] = [
+pub const DRY_TWINS: [(&str, &str); 50] = [
+    // every backup source kind (`Repository::backup`: stdin command, local directory) on plain, hot/cold and damaged repositories
+    ("none", "backup.cmd.dry.new"), ("none", "backup.cmd.dry.same"), ("hc", "backup.cmd.dry.new"), ("hc", "backup.cmd.dry.same"),
+    ("dmg", "backup.cmd.dry.new"), ("hcdmg", "backup.cmd.dry.same"),
+    ("none", "backup.local.dry.new"), ("none", "backup.local.dry.same"), ("hc", "backup.local.dry.new"),
+    ("hc", "backup.local.dry.same"), ("dmg", "backup.local.dry.new"),
     // more blobs than the indexer holds before it saves an index file on its own (`Indexer::add_with`: MAX_COUNT)
     ("big", "repair_index.readall.dry"), ("bigindex", "repair_index.dry"), ("hcbigindex", "repair_index.readall.dry"),
     ("none", "backup.dry.new"), ("none", "backup.dry.same"), ("none", "rewrite.forget.dry"), ("none", "rewrite.keep.dry"),
@@ -827,6 +934,15 @@ pub fn generate(thorough: bool, rng: &mut Rng, ops: &mut Vec<String>, stats: &mu
         }
         ops.push(format!("c15 hnd {setup} {}", seq.join(",")));
         stats.hit(format!("op.hnd-seq.{setup}"));
+    }
+    // backup from every source kind x the dry-run flag on and off (the dry run first, then the real one from the same source,
+    // then everything is read back), on append-only repositories and — one handle — on disarmed ones
+    for setup in ["plain", "hc", "dmg", "hcdmg", "orph"] {
+        for k in ["", ".cmd", ".local"] {
+            ops.push(format!("c15 aox {setup} backup{k}.dry.new,backup{k}.new,backup{k}.dry.same,backup{k}.same,restore"));
+            ops.push(format!("c15 hnd {setup} config.ao0,backup{k}.dry.new,config.ao1.xver,backup{k}.dry.same,backup{k}.same,check"));
+            stats.hit(format!("op.backup-source-kinds.{setup}"));
+        }
     }
     // every command once on its own, right after the repository was marked append-only — on every setup
     for setup in ["plain", "hc", "dmg", "hcdmg"] {
